@@ -34,6 +34,10 @@ class ClassRef(Stub):
     def __hash__(self):
         return hash(("ClassRef", self.name))
 
+    def _abs_call(self, *a, **k):
+        # an instance of a class the analysis does not model: nothing is known about it but where it came from
+        return Opaque(f"{self.name}()")
+
 
 class AbsObj(Stub):
     """An abstract instance: `classes` are the class names it is an instance of; attributes are set by the rule."""
